@@ -7,7 +7,7 @@
    are FALSE of the faithful models (the code violates the property): their refutations are
    proved below, each on a witness reproduced on the real code (corpus/C17), together with the
    statements that do hold. *)
-From Aelys Require Import Base.Tactics Model.AirLower Model.Mono Proofs.AirLowerProofs Proofs.MonoProofs.
+From Aelys Require Import Base.Tactics Model.AirLower Model.Mono Proofs.AirLowerProofs Proofs.AirLowerSweep Proofs.MonoProofs.
 Local Open Scope N_scope.
 
 (* ---------------------------------------------------------------- lowering: refutations *)
@@ -46,6 +46,39 @@ Theorem C17_lower_entry_and_unique_ids :
   forall p f, In f (lower p) -> has_entry (f_blocks f) = true /\ unique_ids (f_blocks f) = true.
 Proof. exact lower_entry_and_unique_ids. Qed.
 
+(* Guarded statement about branch targets.  The guard the design expected ("the function ends in
+   a statement") is NOT sufficient (C17_pending_overwritten_refuted); the guard that works is
+   semantic and decidable: [known_class f = false], i.e. no branch of f goes to a block id that was
+   still pending at the end of the function (f_open) or was overwritten while pending (f_dropped).
+   Unbounded part: under "every dangling target is such a lost id", not being in the known class
+   gives full well-formedness. *)
+Theorem C17_lower_wf_when_nothing_lost :
+  forall f, has_entry (f_blocks f) = true -> unique_ids (f_blocks f) = true ->
+            dangling_all_lost f = true -> known_class f = false -> wf_fn f = true.
+Proof.
+  intros f He Hu Hl Hk. apply good_not_known_wf; [|exact Hk].
+  unfold fn_good. rewrite He, Hu, Hl. reflexivity.
+Qed.
+
+(* Bounded part (complete sweep, the bound is the family S2 x tails = 367 521 one-function
+   programs: one statement of nesting depth <= 2 over {call, return, break, continue, if, if/else,
+   while, for, for-each, nested fn, closure, and-condition}, blocks of <= 2 statements, followed by
+   nothing / a call / a return): with break/continue inside a loop of the same function, every
+   dangling branch target is one of the two kinds of lost ids, and a function outside the known
+   class is well formed. *)
+Theorem C17_dangling_only_lost_bounded :
+  forall x t, In x S2 -> In t tails -> breaks_scoped (prog_of x t) = true ->
+  forall f, In f (lower (prog_of x t)) ->
+    dangling_all_lost f = true /\ (known_class f = false -> wf_fn f = true).
+Proof. exact sweep_dangling_only_lost. Qed.
+
+Example C17_sweep_family_nontrivial :
+  fold_left (fun a _ => a + 1) S2 0 = 122507
+  /\ breaks_scoped (prog_of w_member (mk_stmts [SRet])) = true
+  /\ forallb (fun f => negb (known_class f)) (lower (prog_of w_member (mk_stmts [SRet]))) = true
+  /\ wf_prog (lower (prog_of w_member (mk_stmts [SRet]))) = true.
+Proof. split; [exact (proj2 sweep_family_size)|exact sweep_nonvacuous]. Qed.
+
 (* ---------------------------------------------------------------- monomorphisation: refutations *)
 (* a generic function called at two types: whatever the HashMap order, one call site is redirected
    to the instance made for the other type *)
@@ -65,6 +98,33 @@ Proof. intro pick. exists w_generic_struct. exact (proj2 (generic_struct_witness
 Theorem C17_generic_callee_refuted :
   forall pick, pick_sound pick -> exists p, wf_mono p (monomorphize pick p) = false.
 Proof. intros pick H. exists w_generic_calls_generic. exact (generic_calls_generic_witness pick H). Qed.
+
+(* ---------------------------------------------------------------- monomorphisation: what does hold *)
+(* unbounded: monomorphisation never invents or alters a CFG, so the CFG clauses carry over *)
+Theorem C17_mono_preserves_cfg :
+  forall pick p, forallb (fun f => wf_cfg (m_blocks f)) (p_fns p) = true ->
+                 forallb (fun f => wf_cfg (m_blocks f)) (p_fns (monomorphize pick p)) = true.
+Proof. exact mono_preserves_cfg. Qed.
+
+(* bounded (complete sweep; the bound is the family [bodies]: 6175 programs with the generic
+   functions identity<T>(x), pick<T,U>(x,y), first<T>(xs: [T]) and one caller holding <= 3 call
+   sites over 17 call shapes, no struct literal / call inside a generic, no generic struct; the
+   three choice functions pick_nth 0..2 cover every order of <= 3 instances):
+   all clauses hold after monomorphisation EXACTLY when no generic function is requested at two
+   different type-argument keys. *)
+Theorem C17_mono_closed_single_instantiation_bounded :
+  forall b i, In b bodies -> In i [0; 1; 2]%nat -> single_inst (prog_with b) = true ->
+    wf_mono (prog_with b) (monomorphize (pick_nth i) (prog_with b)) = true.
+Proof. intros b i Hb Hi Hs. rewrite (mono_sweep_spec b i Hb Hi). exact Hs. Qed.
+
+Theorem C17_mono_two_keys_always_break_bounded :
+  forall b i, In b bodies -> In i [0; 1; 2]%nat -> single_inst (prog_with b) = false ->
+    wf_mono (prog_with b) (monomorphize (pick_nth i) (prog_with b)) = false.
+Proof. intros b i Hb Hi Hs. rewrite (mono_sweep_spec b i Hb Hi). exact Hs. Qed.
+
+Example C17_mono_family_nontrivial :
+  fold_left (fun a _ => a + 1) bodies 0 = 6175 /\ (forall i, pick_sound (pick_nth i)).
+Proof. split; [exact mono_family_size|exact pick_nth_sound]. Qed.
 
 (* non-vacuity: a program on which everything holds *)
 Example C17_single_instantiation_example : wf_mono w_single (monomorphize pick_first w_single) = true.
